@@ -494,7 +494,7 @@ func leafUniverse() (all []*Term, core []*Term) {
 		add(&Term{Op: "selector", Reqs: rs}, i == 1)
 	}
 	for i, id := range []string{"x1", "x1b", "n1"} {
-		add(&Term{Op: "fn", ID: id}, i == 0)
+		add(&Term{Op: "fn", ID: id}, i == 0 || i == 2)
 	}
 	for i, n := range [][]string{{"w1"}, {"w1", "w2"}, {"w2", "w1"}, {}} {
 		add(&Term{Op: "node", Names: n}, i == 1)
